@@ -280,10 +280,15 @@ class Flat(Harness):
         for kind in ("ascii", "ACGTnEncoding"):
             for n in ns:
                 for op in ("idx_last", "slice_mid", "rev", "mask", "ilist", "eq_char", "eq_array", "assign_idx", "assign_mask", "concat", "copy",
-                           "assign_idx_str", "assign_mask_str", "assign_slice_str"):     # *_str: the assigned value is a Python str (documented)
-                    if n == 0 and op in ("idx_last", "ilist", "assign_idx", "assign_idx_str"):
+                           "assign_idx_str", "assign_mask_str", "assign_slice_str",      # *_str: the assigned value is a Python str (documented)
+                           "where", "append", "insert", "argsort", "lexsort", "zeros_like"):      # NumPy array functions forwarded by __array_function__
+                    if n == 0 and op in ("idx_last", "ilist", "assign_idx", "assign_idx_str", "insert"):
                         continue
                     out.append(dict(kind=kind, n=n, op=op))
+        # operands in different encodings: the alphabet-encoded array combined with an ASCII array holding letters of the alphabet
+        # (the result must be the text of both in the first operand's encoding, or a loud EncodingException -- never mixed raw codes)
+        for op in ("concat_mixed", "concat_mixed_rev", "where_mixed", "append_mixed"):
+            out.append(dict(kind="ACGTnEncoding", n=3, op=op))
         # history across arrays: an array built from a literal is edited in place, then the same literal is encoded / compared again
         # (alphabet encodings only: an ASCII array built from a str literal is a read-only buffer view and refuses assignment)
         out.append(dict(kind="ACGTnEncoding", n=4, op="literal_history"))
@@ -328,6 +333,25 @@ class Flat(Harness):
                 return dict(kind="flat", v=ctx.lst(strops.join(era, ",").raw()))
             other = EncodedRaggedArray(EncodedArray(ctx.arr([x[f"o{i}"] for i in range(n)], "uint8"), enc), [len(p) for p in pat])
             return dict(kind="flat", v=ctx.lst(strops.str_equal(era, other)))
+        if op.endswith("_mixed") or op == "concat_mixed_rev":
+            from bionumpy.encoded_array import BaseEncoding
+            asc = [ord(c) for c in ALPH[skel["kind"]]]
+            if ctx.mode == "plain":
+                ob = [asc[x[f"o{i}"]] for i in range(n)]
+            else:
+                from symnp.core import S_select
+                ob = [S_select(asc, x[f"o{i}"]) for i in range(n)]
+            o = EncodedArray(ctx.arr(ob, "uint8"), BaseEncoding)
+            if op == "concat_mixed":
+                r = ctx.np.concatenate([e, o])
+            elif op == "concat_mixed_rev":
+                r = ctx.np.concatenate([o, e])
+            elif op == "where_mixed":
+                r = ctx.np.where(ctx.arr([x[f"m{i}"] for i in range(n)], "int64") == 1, e, o)
+            else:
+                r = ctx.np.append(e, o)
+            return dict(kind="flat", v=ctx.lst(r.raw()), enc="ascii" if r.encoding == BaseEncoding else ("same" if r.encoding == enc else "other"),
+                        src=ctx.lst(src.raw()))
         if op == "literal_history":
             from bionumpy.encoded_array import as_encoded_array
             a = as_encoded_array("ACGT", enc)
@@ -370,6 +394,16 @@ class Flat(Harness):
             r[1:3] = "GT"[:len(range(n)[1:3])]
         elif op == "concat":
             r = ctx.np.concatenate([e, e[::-1]])
+        elif op in ("where", "append"):
+            o = EncodedArray(ctx.arr([x[f"o{i}"] for i in range(n)], "uint8"), enc)
+            r = ctx.np.where(ctx.arr([x[f"m{i}"] for i in range(n)], "int64") == 1, e, o) if op == "where" else ctx.np.append(e, o)
+        elif op == "insert":
+            r = ctx.np.insert(e, 1, EncodedArray(ctx.arr([x["ch2"]], "uint8"), enc))
+        elif op in ("argsort", "lexsort"):
+            p_ = ctx.np.argsort(e) if op == "argsort" else ctx.np.lexsort((e,))
+            return dict(kind="perm", v=[int(v) for v in ctx.lst(p_)], src=ctx.lst(src.raw()))
+        elif op == "zeros_like":
+            r = ctx.np.zeros_like(e)
         elif op == "copy":
             r = e.copy()
         assert r.encoding == enc
@@ -419,9 +453,42 @@ class Flat(Harness):
             return [letter(skel["kind"], "GT"[i - 1]) if 1 <= i < 3 else t for i, t in enumerate(s)]
         if op == "concat":
             return s + s[::-1]
+        if op == "where":
+            return [I(g(f"m{i}"), 1, t, g(f"o{i}")) if False else ("ite", g(f"m{i}"), t, g(f"o{i}")) for i, t in enumerate(s)]
+        if op == "append":
+            return s + [g(f"o{i}") for i in range(n)]
+        if op == "insert":
+            return s[:1] + [ch2] + s[1:]
+        if op == "zeros_like":
+            return [0] * n
         return list(s)
 
+    def _mixed_expect(self, skel, g, sel):
+        """codes (first operand alphabet-encoded) or ASCII bytes (first operand ASCII) of the expected text"""
+        n, op = skel["n"], skel["op"]
+        s = [g(f"l{i}") for i in range(n)]
+        o = [g(f"o{i}") for i in range(n)]
+        asc = [ord(c) for c in ALPH[skel["kind"]]]
+        if op == "concat_mixed_rev":
+            return "ascii", [sel(asc, t) for t in o] + [sel(asc, t) for t in s]
+        if op == "where_mixed":
+            return "same", [("ite", g(f"m{i}"), s[i], o[i]) for i in range(n)]
+        return "same", s + o
+
     def post(self, skel, x, out):
+        if skel["op"].endswith("_mixed") or skel["op"] == "concat_mixed_rev":
+            if isinstance(out, Exc):
+                return out.type in ("EncodingException", "EncodingError")
+            def sel(tab, t):
+                r = z3.IntVal(-1)
+                for i, v in enumerate(tab):
+                    r = z3.If(t == i, v, r)
+                return r
+            enc, exp = self._mixed_expect(skel, lambda nm: x[nm].t, sel)
+            if out["enc"] != enc or len(out["v"]) != len(exp):
+                return False
+            return z_and([TI(g) == (z3.If(e[1] == 1, e[2], e[3]) if isinstance(e, tuple) else e) for g, e in zip(out["v"], exp)] +
+                         [TI(v) == x[f"l{i}"].t for i, v in enumerate(out["src"])])
         if isinstance(out, Exc):
             return False
         n = skel["n"]
@@ -437,6 +504,15 @@ class Flat(Harness):
             for k in range(len(s)):
                 t = z3.If(z3.Or(i == k, i == k - len(s)), s[k], t)
             return t
+        if skel["op"] in ("argsort", "lexsort"):
+            p_ = out["v"]
+            if sorted(p_) != list(range(n)):
+                return False
+            L = [x[f"l{i}"].t for i in range(n)]
+            conj = [TI(v) == L[i] for i, v in enumerate(out["src"])]
+            for a, b in zip(p_, p_[1:]):      # ordered; lexsort is stable (ties keep their order), argsort need not be
+                conj.append(z3.Or(L[a] < L[b], z3.And(L[a] == L[b], a < b)) if skel["op"] == "lexsort" else L[a] <= L[b])
+            return z_and(conj)
         exp = self._model(skel, lambda nm: x[nm].t, out, lambda t, a, b: z3.If(t == a, b, t), IDX)
         conj = []
 
@@ -450,6 +526,8 @@ class Flat(Harness):
                 conj.append(TB(g) == (e[1] == e[2]))
             elif isinstance(e, tuple) and e[0] == "alleq":
                 conj.append(TB(g) == z_and([a == b for a, b in zip(e[1], e[2])]))
+            elif isinstance(e, tuple) and e[0] == "ite":
+                conj.append(TI(g) == z3.If(e[1] == 1, e[2], e[3]))
             elif isinstance(e, tuple) and e[0] == "assign_at":
                 i0 = x["i0"].t
                 conj.append(TI(g) == z3.If(z3.Or(i0 == e[1], i0 == e[1] - n), e[3] if len(e) > 3 else x["ch2"].t, e[2]))
@@ -461,6 +539,18 @@ class Flat(Harness):
         return z_and(conj)
 
     def oracle(self, skel, cx, cout):
+        if skel["op"].endswith("_mixed") or skel["op"] == "concat_mixed_rev":
+            if isinstance(cout, Exc):
+                return None if cout.type in ("EncodingException", "EncodingError") else f"raised {cout}"
+            enc, exp = self._mixed_expect(skel, lambda nm: cx[nm], lambda tab, t: tab[t])
+            exp = [(e[2] if e[1] == 1 else e[3]) if isinstance(e, tuple) else e for e in exp]
+            alpha = ALPH[skel["kind"]]
+            txt = lambda codes: "".join(alpha[c] for c in codes)
+            s, o = [cx[f"l{i}"] for i in range(skel["n"])], [cx[f"o{i}"] for i in range(skel["n"])]
+            if cout["enc"] != enc or [int(v) for v in cout["v"]] != exp:
+                return (f"{skel['op']}: {skel['kind']} array {txt(s)!r} combined with the ASCII array {txt(o)!r}: result encoding {cout['enc']} "
+                        f"raw {cout['v']}, expected encoding {enc} raw {exp} (or an EncodingException)")
+            return None
         if isinstance(cout, Exc):
             return f"raised {cout}"
         n = skel["n"]
@@ -469,9 +559,16 @@ class Flat(Harness):
             exp = [cx["ch2"] if cx[f"m{i}"] == 1 else lit[i] for i in range(4)] + lit + [True] * 4
             return None if cout["v"] == exp else (f"array built from the literal 'ACGT' ({skel['kind']}), positions {[i for i in range(4) if cx[f'm{i}'] == 1]} set to "
                                                    f"{cx['ch2']}, then the literal encoded and compared again: edited array, fresh array, fresh == 'ACGT' = {cout['v']}, expected {exp}")
+        if skel["op"] in ("argsort", "lexsort"):
+            L = [cx[f"l{i}"] for i in range(n)]
+            p_ = cout["v"]
+            ok = sorted(p_) == list(range(n)) and all((L[a], a) < (L[b], b) if skel["op"] == "lexsort" else L[a] <= L[b] for a, b in zip(p_, p_[1:]))
+            return None if ok and cout["src"] == L else f"{skel['op']} of {L} ({skel['kind']}) = {p_} (operand afterwards {cout['src']})"
         exp = self._model(skel, lambda nm: cx[nm], cout, lambda t, a, b: b if t == a else t, lambda s, i: s[i])
 
         def ev(e):
+            if isinstance(e, tuple) and e[0] == "ite":
+                return e[2] if e[1] == 1 else e[3]
             if isinstance(e, list):
                 return [ev(i) for i in e]
             if isinstance(e, tuple) and e[0] == "eq":
